@@ -37,48 +37,153 @@ def elemsOfList (defs : List StyleDef) : List Node → List Elem
   | n :: rest => elemsOfNode defs n ++ elemsOfList defs rest
 end
 
-/-- inside the text body the streaming walk appends exactly `elemsOfNode`, in source order -/
+theorem walkList_append (defs : List StyleDef) (a b : List Node) (w : Walk) :
+    walkList defs (a ++ b) w = walkList defs b (walkList defs a w) := by
+  induction a generalizing w with
+  | nil => simp [walkList]
+  | cons n rest ih => simp only [List.cons_append, walkList]; rw [ih]
+
+/-! ### the decoder gives up: `scanList` is the walk over `residualList` -/
+
+/-- when the decoder `ctx` gives up below a child, the walk goes on over exactly the nodes
+`residualNode` names; otherwise nothing happens -/
+theorem scan_residual_node (defs : List StyleDef) (n : Node) :
+    ∀ (ctx : Ctx) (w : Walk), scanNode defs ctx n w = (residualNode ctx n).map fun r => walkList defs r w := by
+  induction n using Node.rec (motive_2 := fun l => ∀ (ctx : Ctx) (w : Walk),
+      scanList defs ctx l w = (residualList ctx l).map fun r => walkList defs r w) with
+  | elem tag attrs kids ih =>
+    intro ctx w
+    simp only [scanNode, residualNode]
+    cases descend ctx (localName tag) with
+    | skip => rfl
+    | fail => rfl
+    | into c => exact ih c w
+  | text s => intro ctx w; rfl
+  | nil => rfl
+  | cons n rest ihn ihr =>
+    rename_i ctx w
+    simp only [scanList, residualList]
+    rw [ihn ctx w]
+    cases residualNode ctx n with
+    | none => exact ihr ctx w
+    | some r =>
+      cases hi : ctx.isInline
+      · simp
+      · simp [walkList_append]
+
+theorem scan_residual (defs : List StyleDef) (ctx : Ctx) (l : List Node) (w : Walk) :
+    scanList defs ctx l w = (residualList ctx l).map fun r => walkList defs r w := by
+  induction l generalizing w with
+  | nil => rfl
+  | cons n rest ih =>
+    simp only [scanList, residualList]
+    rw [scan_residual_node defs n ctx w]
+    cases residualNode ctx n with
+    | none => exact ih w
+    | some r =>
+      cases hi : ctx.isInline
+      · simp
+      · simp [walkList_append]
+
+theorem scan_none (defs : List StyleDef) (ctx : Ctx) (l : List Node) (w : Walk)
+    (h : (residualList ctx l).isNone = true) : scanList defs ctx l w = none := by
+  rw [scan_residual]
+  cases hr : residualList ctx l with
+  | none => rfl
+  | some r => rw [hr] at h; cases h
+
+/-- once `Token` has answered `io.EOF` nothing is read any more -/
+theorem walk_done_node (defs : List StyleDef) (n : Node) (w : Walk) (h : w.done = true) : walkNode defs n w = w := by
+  cases n with
+  | text s => rfl
+  | elem tag attrs kids => simp [walkNode, h]
+
+theorem walk_done_list (defs : List StyleDef) (l : List Node) (w : Walk) (h : w.done = true) : walkList defs l w = w := by
+  induction l with
+  | nil => rfl
+  | cons n rest ih => simp only [walkList]; rw [walk_done_node defs n w h]; exact ih
+
+mutual
+/-- every `text:p`, `text:h`, `text:list`, `table:table` the body walk hands to
+`DecodeElement` is decoded to its end: no paragraph below them nests `text:span` / `text:a`
+deeper than `maxInlineDepth` (a decidable property of the tree) -/
+def decodesNode : Node → Bool
+  | .text _ => true
+  | .elem tag _ kids =>
+    if localName tag == sP then (residualList (.inline 0) kids).isNone
+    else if localName tag == sH then (residualList (.inline 0) kids).isNone
+    else if localName tag == sList then (residualList .list kids).isNone
+    else if localName tag == sTable then (residualList .table kids).isNone
+    else decodesList kids
+def decodesList : List Node → Bool
+  | [] => true
+  | n :: rest => decodesNode n && decodesList rest
+end
+
+/-- inside the text body the streaming walk appends exactly `elemsOfNode`, in source order -
+for a subtree whose body elements are all decoded to their end (`decodesNode`; beyond
+`maxInlineDepth` see `walk_gives_up`) -/
 theorem walk_inside_node (defs : List StyleDef) (n : Node) :
-    ∀ w : Walk, w.inBody = true → noTextNode n = true →
+    ∀ w : Walk, w.inBody = true → w.done = false → noTextNode n = true → decodesNode n = true →
       walkNode defs n w = { w with acc := w.acc ++ elemsOfNode defs n } := by
-  induction n using Node.rec (motive_2 := fun l => ∀ w : Walk, w.inBody = true → noTextList l = true →
+  induction n using Node.rec (motive_2 := fun l => ∀ w : Walk, w.inBody = true → w.done = false →
+      noTextList l = true → decodesList l = true →
       walkList defs l w = { w with acc := w.acc ++ elemsOfList defs l }) with
   | elem tag attrs kids ih =>
-    intro w hb hn
+    intro w hb hd hn hdec
     simp only [noTextNode, Bool.and_eq_true, bne_iff_ne, ne_eq] at hn
     have hne : (tag == sOfficeText) = false := by
       cases h : tag == sOfficeText
       · rfl
       · exact absurd (by simpa using h) hn.1
-    simp only [walkNode, elemsOfNode, hne, hb, Bool.false_eq_true, if_false, Bool.not_true]
+    simp only [walkNode, elemsOfNode, hne, hb, hd, Bool.false_eq_true, if_false, Bool.not_true]
+    simp only [decodesNode] at hdec
     split
-    · rfl
-    · split
-      · rfl
-      · split
-        · rfl
-        · split
-          · rfl
-          · rw [ih w hb hn.2, hb]
-  | text s => intro w _ _; simp [walkNode, elemsOfNode]
+    · rename_i hp
+      simp only [hp, if_true] at hdec
+      rw [scan_none defs _ kids w hdec]
+    · rename_i hp
+      simp only [hp] at hdec
+      split
+      · rename_i hh
+        simp only [hh, if_true] at hdec
+        rw [scan_none defs _ kids w hdec]
+      · rename_i hh
+        simp only [hh] at hdec
+        split
+        · rename_i hl
+          simp only [hl, if_true] at hdec
+          rw [scan_none defs _ kids w hdec]
+        · rename_i hl
+          simp only [hl] at hdec
+          split
+          · rename_i ht
+            simp only [ht, if_true] at hdec
+            rw [scan_none defs _ kids w hdec]
+          · rename_i ht
+            simp only [ht] at hdec
+            rw [ih w hb hd hn.2 hdec, hb, hd]
+  | text s => intro w _ _ _ _; simp [walkNode, elemsOfNode]
   | nil => simp [walkList, elemsOfList]
   | cons n rest ihn ihr =>
-    rename_i w hb hn
+    rename_i w hb hd hn hdec
     simp only [noTextList, Bool.and_eq_true] at hn
+    simp only [decodesList, Bool.and_eq_true] at hdec
     simp only [walkList, elemsOfList]
-    rw [ihn w hb hn.1, ihr { w with acc := w.acc ++ elemsOfNode defs n } hb hn.2]
+    rw [ihn w hb hd hn.1 hdec.1, ihr { w with acc := w.acc ++ elemsOfNode defs n } hb hd hn.2 hdec.2]
     simp [List.append_assoc]
 
 theorem walk_inside_list (defs : List StyleDef) (l : List Node) :
-    ∀ w : Walk, w.inBody = true → noTextList l = true →
+    ∀ w : Walk, w.inBody = true → w.done = false → noTextList l = true → decodesList l = true →
       walkList defs l w = { w with acc := w.acc ++ elemsOfList defs l } := by
   induction l with
-  | nil => intro w _ _; simp [walkList, elemsOfList]
+  | nil => intro w _ _ _ _; simp [walkList, elemsOfList]
   | cons n rest ih =>
-    intro w hb hn
+    intro w hb hd hn hdec
     simp only [noTextList, Bool.and_eq_true] at hn
+    simp only [decodesList, Bool.and_eq_true] at hdec
     simp only [walkList, elemsOfList]
-    rw [walk_inside_node defs n w hb hn.1, ih { w with acc := w.acc ++ elemsOfNode defs n } hb hn.2]
+    rw [walk_inside_node defs n w hb hd hn.1 hdec.1, ih { w with acc := w.acc ++ elemsOfNode defs n } hb hd hn.2 hdec.2]
     simp [List.append_assoc]
 
 /-- outside the text body nothing is recorded -/
@@ -94,7 +199,9 @@ theorem walk_outside_node (defs : List StyleDef) (n : Node) :
       · rfl
       · exact absurd (by simpa using h) hn.1
     simp only [walkNode, hne, hb, Bool.false_eq_true, if_false, Bool.not_false, if_true]
-    exact ih w hb hn.2
+    split
+    · rfl
+    · exact ih w hb hn.2
   | text s => intro w _ _; simp [walkNode]
   | nil => simp [walkList]
   | cons n rest ihn ihr =>
@@ -113,11 +220,170 @@ theorem walk_outside_list (defs : List StyleDef) (l : List Node) :
     simp only [walkList]
     rw [walk_outside_node defs n w hb hn.1, ih w hb hn.2]
 
-theorem walkList_append (defs : List StyleDef) (a b : List Node) (w : Walk) :
-    walkList defs (a ++ b) w = walkList defs b (walkList defs a w) := by
-  induction a generalizing w with
-  | nil => simp [walkList]
-  | cons n rest ih => simp only [List.cons_append, walkList]; rw [ih]
+/-! ### the depth limit of `decodeInlineContentAt` -/
+
+mutual
+/-- how deep `text:span` / `text:a` nest below a child of a paragraph (anything that is
+skipped counts 0, a span or link one more than its content) -/
+def spanNestNode : Node → Nat
+  | .text _ => 0
+  | .elem tag _ kids => if localName tag == sSpan || localName tag == sA then spanNestList kids + 1 else 0
+def spanNestList : List Node → Nat
+  | [] => 0
+  | n :: rest => max (spanNestNode n) (spanNestList rest)
+end
+
+/-- the inline decoder entered with `d ≤ maxInlineDepth` reads a child to its end exactly when
+the spans below it nest no deeper than the limit allows -/
+theorem residual_inline_node (n : Node) : ∀ d, d ≤ maxInlineDepth →
+    (residualNode (.inline d) n = none ↔ d + spanNestNode n ≤ maxInlineDepth) := by
+  induction n using Node.rec (motive_2 := fun l => ∀ d, d ≤ maxInlineDepth →
+      (residualList (.inline d) l = none ↔ d + spanNestList l ≤ maxInlineDepth)) with
+  | elem tag attrs kids ih =>
+    intro d hd
+    by_cases hs : (localName tag == sSpan || localName tag == sA) = true
+    · by_cases h : d + 1 > maxInlineDepth
+      · simp only [residualNode, descend, spanNestNode, hs, h, if_true]
+        constructor
+        · intro hc; cases hc
+        · intro hc; omega
+      · simp only [residualNode, descend, spanNestNode, hs, h, if_true, if_false]
+        rw [ih (d + 1) (by omega)]
+        omega
+    · simp only [residualNode, descend, spanNestNode, hs, if_false, Nat.add_zero]
+      exact ⟨fun _ => hd, fun _ => rfl⟩
+  | text s => intro d hd; simp [residualNode, spanNestNode, hd]
+  | nil => rename_i d hd; simp [residualList, spanNestList, hd]
+  | cons n rest ihn ihr =>
+    rename_i d hd
+    simp only [residualList, spanNestList]
+    cases hr : residualNode (.inline d) n with
+    | none =>
+      have h1 := (ihn d hd).mp hr
+      simp only
+      rw [ihr d hd]
+      omega
+    | some r =>
+      have h1 : ¬ (d + spanNestNode n ≤ maxInlineDepth) := fun hle => by
+        have := (ihn d hd).mpr hle
+        rw [hr] at this; cases this
+      simp only [Ctx.isInline, if_true]
+      constructor
+      · intro hc; cases hc
+      · intro hc; omega
+
+theorem residual_inline (l : List Node) : ∀ d, d ≤ maxInlineDepth →
+    (residualList (.inline d) l = none ↔ d + spanNestList l ≤ maxInlineDepth) := by
+  induction l with
+  | nil => intro d hd; simp [residualList, spanNestList, hd]
+  | cons n rest ih =>
+    intro d hd
+    simp only [residualList, spanNestList]
+    cases hr : residualNode (.inline d) n with
+    | none =>
+      have h1 := (residual_inline_node n d hd).mp hr
+      simp only
+      rw [ih d hd]
+      omega
+    | some r =>
+      have h1 : ¬ (d + spanNestNode n ≤ maxInlineDepth) := fun hle => by
+        have := (residual_inline_node n d hd).mpr hle
+        rw [hr] at this; cases this
+      simp only [Ctx.isInline, if_true]
+      constructor
+      · intro hc; cases hc
+      · intro hc; omega
+
+/-- `k` nested `text:span`s around `inner` -/
+def spanN (stag : Str) : Nat → List Node → List Node
+  | 0, inner => inner
+  | k + 1, inner => [.elem stag [] (spanN stag k inner)]
+
+theorem spanNest_spanN (stag : Str) (hs : (localName stag == sSpan || localName stag == sA) = true) (inner : List Node) :
+    ∀ k, spanNestList (spanN stag k inner) = k + spanNestList inner := by
+  intro k
+  induction k with
+  | zero => simp [spanN]
+  | succ k ih =>
+    simp only [spanN, spanNestList, spanNestNode, hs, if_true]
+    rw [ih]; omega
+
+theorem inline_spanN (stag : Str) (hs : (localName stag == sSpan || localName stag == sA) = true) (inner : List Node) :
+    ∀ k, inlineList (spanN stag k inner) = inlineList inner := by
+  intro k
+  induction k with
+  | zero => simp [spanN]
+  | succ k ih =>
+    simp only [spanN, inlineList, inlineNode, hs, if_true, List.append_nil]
+    exact ih
+
+/-! ### `text:s`: the space run -/
+
+theorem spaceRun_range (c : Str) : 1 ≤ spaceRun c ∧ spaceRun c ≤ maxSpaceRun := by
+  unfold spaceRun maxSpaceRun
+  cases atoi? c with
+  | none => simp
+  | some v =>
+    simp only
+    split
+    · omega
+    · omega
+
+mutual
+/-- bytes of character data / number of elements below a node -/
+def textBytesNode : Node → Nat
+  | .text s => s.length
+  | .elem _ _ kids => textBytesList kids
+def textBytesList : List Node → Nat
+  | [] => 0
+  | n :: rest => textBytesNode n + textBytesList rest
+end
+
+mutual
+def elemCountNode : Node → Nat
+  | .text _ => 0
+  | .elem _ _ kids => 1 + elemCountList kids
+def elemCountList : List Node → Nat
+  | [] => 0
+  | n :: rest => elemCountNode n + elemCountList rest
+end
+
+/-- the text of a paragraph is at most its character data plus `maxSpaceRun` bytes per element -/
+theorem inline_length_node (n : Node) :
+    (inlineNode n).length ≤ textBytesNode n + maxSpaceRun * elemCountNode n := by
+  induction n using Node.rec (motive_2 := fun l =>
+      (inlineList l).length ≤ textBytesList l + maxSpaceRun * elemCountList l) with
+  | elem tag attrs kids ih =>
+    simp only [inlineNode, textBytesNode, elemCountNode]
+    rw [Nat.mul_add, Nat.mul_one]
+    split
+    · omega
+    · split
+      · have := (spaceRun_range (attrOf attrs sC)).2
+        simp only [List.length_replicate]
+        omega
+      · have : 1 ≤ maxSpaceRun := by decide
+        split
+        · simp only [List.length_singleton]; omega
+        · split
+          · simp only [List.length_singleton]; omega
+          · simp only [List.length_nil]; omega
+  | text s => simp [inlineNode, textBytesNode]
+  | nil => simp [inlineList]
+  | cons n rest ihn ihr =>
+    simp only [inlineList, textBytesList, elemCountList, List.length_append]
+    rw [Nat.mul_add]
+    omega
+
+theorem inline_length_list (l : List Node) :
+    (inlineList l).length ≤ textBytesList l + maxSpaceRun * elemCountList l := by
+  induction l with
+  | nil => simp [inlineList]
+  | cons n rest ih =>
+    simp only [inlineList, textBytesList, elemCountList, List.length_append]
+    have := inline_length_node n
+    rw [Nat.mul_add]
+    omega
 
 /-! ### row spans: the pass only inserts covered placeholders -/
 
@@ -259,5 +525,273 @@ theorem covered_blank_spanRows (cc : Nat) : ∀ (rows : List (List Cell)) (rem :
     cases ho with
     | inl he => rw [he]; exact h2
     | inr hm => exact ih rem2 (fun r hr => h r (List.mem_cons_of_mem _ hr)) out hm
+
+/-! ### `limitTableGrid` -/
+
+/-- every span of the table set to 1 (what `limitTableGrid` does beyond the limit) -/
+def resetSpans (rows : List (List Cell)) : List (List Cell) :=
+  rows.map fun row => row.map fun c => { c with colSpan := 1, rowSpan := 1 }
+
+/-- the widest row counted in cells -/
+def widest (rows : List (List Cell)) : Nat := rows.foldl (fun m row => max m row.length) 0
+
+/-- the number of cells of a table -/
+def cellCount (rows : List (List Cell)) : Nat := (rows.map List.length).sum
+
+theorem limit_cases (rows : List (List Cell)) : limitTableGrid rows = rows ∨ limitTableGrid rows = resetSpans rows := by
+  unfold limitTableGrid resetSpans
+  split
+  · exact Or.inl rfl
+  · exact Or.inr rfl
+
+/-- within the limit (rows x spanned columns ≤ 2^20) the table is left as it is -/
+theorem limit_within (rows : List (List Cell)) (h : rows.length * colCount rows ≤ maxTableGridCells) :
+    limitTableGrid rows = rows := by
+  unfold limitTableGrid
+  by_cases hc : colCount rows = 0
+  · simp [hc]
+  · have hpos : 0 < colCount rows := Nat.pos_of_ne_zero hc
+    have : rows.length ≤ maxTableGridCells / colCount rows := (Nat.le_div_iff_mul_le hpos).mpr h
+    simp [this]
+
+/-- a table without spans is left as it is, whatever its size -/
+theorem limit_nospans (rows : List (List Cell)) (h : hasSpans rows = false) : limitTableGrid rows = rows := by
+  unfold limitTableGrid
+  simp [h]
+
+/-- beyond the limit a table that has spans loses all of them -/
+theorem limit_beyond (rows : List (List Cell)) (hs : hasSpans rows = true)
+    (h : rows.length * colCount rows > maxTableGridCells) : limitTableGrid rows = resetSpans rows := by
+  unfold limitTableGrid resetSpans
+  have hc : colCount rows ≠ 0 := by
+    intro h0; rw [h0] at h; simp at h
+  have hpos : 0 < colCount rows := Nat.pos_of_ne_zero hc
+  have : ¬ rows.length ≤ maxTableGridCells / colCount rows := by
+    intro hle
+    have := (Nat.le_div_iff_mul_le hpos).mp hle
+    omega
+  simp [hs, hc, this]
+
+/-- the limit touches spans only: texts, covered flags, the number of rows and of cells in
+every row stay -/
+theorem limit_content (rows : List (List Cell)) :
+    (limitTableGrid rows).map (·.map fun c => (c.text, c.covered)) = rows.map (·.map fun c => (c.text, c.covered)) := by
+  cases limit_cases rows with
+  | inl h => rw [h]
+  | inr h => rw [h]; simp [resetSpans, List.map_map, Function.comp_def]
+
+theorem limit_length (rows : List (List Cell)) : (limitTableGrid rows).length = rows.length := by
+  cases limit_cases rows with
+  | inl h => rw [h]
+  | inr h => rw [h]; simp [resetSpans]
+
+theorem cellCount_resetSpans (rows : List (List Cell)) : cellCount (resetSpans rows) = cellCount rows := by
+  simp [cellCount, resetSpans, List.map_map, Function.comp_def]
+
+theorem limit_live (rows : List (List Cell)) (h : ∀ row ∈ rows, ∀ c ∈ row, c.covered = false) :
+    ∀ row ∈ limitTableGrid rows, ∀ c ∈ row, c.covered = false := by
+  cases limit_cases rows with
+  | inl he => rw [he]; exact h
+  | inr he =>
+    rw [he]
+    intro row hrow c hc
+    simp only [resetSpans, List.mem_map] at hrow
+    obtain ⟨r0, hr0, rfl⟩ := hrow
+    simp only [List.mem_map] at hc
+    obtain ⟨c0, hc0, rfl⟩ := hc
+    exact h r0 hr0 c0 hc0
+
+theorem hasSpans_false (rows : List (List Cell)) (h : hasSpans rows = false) :
+    ∀ row ∈ rows, ∀ c ∈ row, c.colSpan ≤ 1 ∧ c.rowSpan ≤ 1 := by
+  intro row hrow c hc
+  unfold hasSpans at h
+  rw [List.any_eq_false] at h
+  have h1 := h row hrow
+  have h1' : (row.any fun c => decide (c.colSpan > 1) || decide (c.rowSpan > 1)) = false := by simpa using h1
+  rw [List.any_eq_false] at h1'
+  have h2 := h1' c hc
+  simp only [Bool.or_eq_true, decide_eq_true_eq, not_or, Nat.not_lt] at h2
+  exact h2
+
+/-! ### `processRowSpans`: how many cells it can make -/
+
+theorem foldl_add_span : ∀ (l : List Cell) (a : Nat), l.foldl (fun s c => s + c.colSpan) a = a + (l.map (·.colSpan)).sum := by
+  intro l
+  induction l with
+  | nil => intro a; simp
+  | cons c cs ih => intro a; simp only [List.foldl_cons, List.map_cons, List.sum_cons]; rw [ih]; omega
+
+theorem foldl_max_ge' (f : List Cell → Nat) : ∀ (rows : List (List Cell)) (a : Nat),
+    a ≤ rows.foldl (fun m row => max m (f row)) a ∧ ∀ row ∈ rows, f row ≤ rows.foldl (fun m row => max m (f row)) a := by
+  intro rows
+  induction rows with
+  | nil => intro a; simp
+  | cons r rs ih =>
+    intro a
+    simp only [List.foldl_cons]
+    obtain ⟨h1, h2⟩ := ih (max a (f r))
+    refine ⟨by omega, ?_⟩
+    intro row hrow
+    cases hrow with
+    | head => omega
+    | tail _ hm => exact h2 row hm
+
+theorem rowWidth_le_colCount (rows : List (List Cell)) (row : List Cell) (h : row ∈ rows) :
+    (row.map (·.colSpan)).sum ≤ colCount rows := by
+  have h1 := (foldl_max_ge' (fun row => row.foldl (fun s c => s + c.colSpan) 0) rows 0).2 row h
+  rw [foldl_add_span row 0] at h1
+  unfold colCount
+  omega
+
+/-- no row span is in progress -/
+def ZeroRem (rem : List Nat) : Prop := ∀ i, rem.getD i 0 = 0
+
+theorem zeroRem_replicate (n : Nat) : ZeroRem (List.replicate n 0) := by
+  intro i
+  simp only [List.getD_eq_getElem?_getD, List.getElem?_replicate]
+  split <;> rfl
+
+theorem skipCovered_zero (cc : Nat) (rem : List Nat) (hz : ZeroRem rem) : ∀ (fuel col : Nat) (out : List Cell),
+    skipCovered fuel cc col rem out = (col, rem, out) := by
+  intro fuel
+  cases fuel with
+  | zero => intro col out; rfl
+  | succ n =>
+    intro col out
+    simp only [skipCovered]
+    have h0 := hz col
+    have : ¬ (col < cc ∧ rem.getD col 0 > 0) := by rw [h0]; omega
+    simp only [this, if_false]
+
+theorem spanRow_zero (cc : Nat) (rem : List Nat) (hz : ZeroRem rem) : ∀ (cells : List Cell) (col : Nat) (out : List Cell),
+    (∀ c ∈ cells, 1 ≤ c.colSpan ∧ c.rowSpan ≤ 1) → col + (cells.map (·.colSpan)).sum ≤ cc →
+    spanRow cc cells col rem out = (col + (cells.map (·.colSpan)).sum, rem, out ++ cells) := by
+  intro cells
+  induction cells with
+  | nil => intro col out _ _; simp [spanRow]
+  | cons c rest ih =>
+    intro col out hg hw
+    simp only [spanRow]
+    rw [skipCovered_zero cc rem hz]
+    simp only [List.map_cons, List.sum_cons] at hw ⊢
+    have hc := hg c List.mem_cons_self
+    have hlt : ¬ (col ≥ cc) := by omega
+    have hrs : ¬ (c.rowSpan > 1) := by omega
+    simp only [hlt, hrs, if_false]
+    rw [ih (col + c.colSpan) (out ++ [c]) (fun x hx => hg x (List.mem_cons_of_mem _ hx)) (by omega)]
+    simp [Nat.add_assoc]
+
+theorem spanRows_zero (cc : Nat) (rem : List Nat) (hz : ZeroRem rem) : ∀ (rows : List (List Cell)),
+    (∀ row ∈ rows, (∀ c ∈ row, 1 ≤ c.colSpan ∧ c.rowSpan ≤ 1) ∧ (row.map (·.colSpan)).sum ≤ cc) →
+    spanRows cc rows rem = rows := by
+  intro rows
+  induction rows with
+  | nil => intro _; rfl
+  | cons row rest ih =>
+    intro h
+    have hr := h row List.mem_cons_self
+    simp only [spanRows]
+    rw [spanRow_zero cc rem hz row 0 [] hr.1 (by omega)]
+    simp only
+    rw [skipCovered_zero cc rem hz]
+    simp only [List.nil_append]
+    rw [ih (fun r hr' => h r (List.mem_cons_of_mem _ hr'))]
+
+/-- **no row span, no placeholder**: a table whose cells are all one row high (and at least one
+column wide) comes out of `processRowSpans` as it went in -/
+theorem processRowSpans_flat (rows : List (List Cell)) (h : ∀ row ∈ rows, ∀ c ∈ row, 1 ≤ c.colSpan ∧ c.rowSpan ≤ 1) :
+    processRowSpans rows = rows := by
+  unfold processRowSpans
+  apply spanRows_zero _ _ (zeroRem_replicate _)
+  intro row hrow
+  exact ⟨h row hrow, rowWidth_le_colCount rows row hrow⟩
+
+theorem skipCovered_len (cc : Nat) : ∀ (fuel col : Nat) (rem : List Nat) (out : List Cell),
+    out.length ≤ col → out.length ≤ cc →
+    (skipCovered fuel cc col rem out).2.2.length ≤ (skipCovered fuel cc col rem out).1 ∧
+    (skipCovered fuel cc col rem out).2.2.length ≤ cc := by
+  intro fuel
+  induction fuel with
+  | zero => intro col rem out h1 h2; exact ⟨h1, h2⟩
+  | succ n ih =>
+    intro col rem out h1 h2
+    simp only [skipCovered]
+    split
+    · rename_i hc
+      apply ih
+      · simp only [List.length_append, List.length_singleton]; omega
+      · simp only [List.length_append, List.length_singleton]; omega
+    · exact ⟨h1, h2⟩
+
+theorem spanRow_len (cc : Nat) : ∀ (cells : List Cell) (col : Nat) (rem : List Nat) (out : List Cell),
+    (∀ c ∈ cells, 1 ≤ c.colSpan) → out.length ≤ col → out.length ≤ cc →
+    (spanRow cc cells col rem out).2.2.length ≤ (spanRow cc cells col rem out).1 ∧
+    (spanRow cc cells col rem out).2.2.length ≤ cc := by
+  intro cells
+  induction cells with
+  | nil => intro col rem out _ h1 h2; exact ⟨h1, h2⟩
+  | cons c rest ih =>
+    intro col rem out hg h1 h2
+    simp only [spanRow]
+    have hs := skipCovered_len cc cc col rem out h1 h2
+    generalize skipCovered cc cc col rem out = r at hs
+    obtain ⟨col', rem', out'⟩ := r
+    simp only at hs ⊢
+    split
+    · exact hs
+    · rename_i hlt
+      have hc := hg c List.mem_cons_self
+      apply ih _ _ _ (fun x hx => hg x (List.mem_cons_of_mem _ hx))
+      · simp only [List.length_append, List.length_singleton]; omega
+      · simp only [List.length_append, List.length_singleton]; omega
+
+/-- every row `processRowSpans` writes is at most as long as the grid is wide -/
+theorem spanRows_row_le (cc : Nat) : ∀ (rows : List (List Cell)) (rem : List Nat),
+    (∀ row ∈ rows, ∀ c ∈ row, 1 ≤ c.colSpan) → ∀ out ∈ spanRows cc rows rem, out.length ≤ cc := by
+  intro rows
+  induction rows with
+  | nil => intro rem _ out ho; simp [spanRows] at ho
+  | cons row rest ih =>
+    intro rem h out ho
+    simp only [spanRows] at ho
+    have h1 := spanRow_len cc row 0 rem [] (h row List.mem_cons_self) (by simp) (by simp)
+    generalize spanRow cc row 0 rem [] = r at h1 ho
+    obtain ⟨col', rem', out'⟩ := r
+    have h2 := skipCovered_len cc cc col' rem' out' h1.1 h1.2
+    generalize skipCovered cc cc col' rem' out' = r2 at h2 ho
+    obtain ⟨col2, rem2, out2⟩ := r2
+    simp only [List.mem_cons] at ho
+    cases ho with
+    | inl he => rw [he]; exact h2.2
+    | inr hm => exact ih rem2 (fun r hr => h r (List.mem_cons_of_mem _ hr)) out hm
+
+theorem spanRows_length (cc : Nat) : ∀ (rows : List (List Cell)) (rem : List Nat), (spanRows cc rows rem).length = rows.length := by
+  intro rows
+  induction rows with
+  | nil => intro rem; rfl
+  | cons row rest ih =>
+    intro rem
+    simp only [spanRows, List.length_cons]
+    rw [ih]
+
+theorem cellCount_le (rows : List (List Cell)) (b : Nat) (h : ∀ row ∈ rows, row.length ≤ b) : cellCount rows ≤ rows.length * b := by
+  unfold cellCount
+  induction rows with
+  | nil => simp
+  | cons r rs ih =>
+    simp only [List.map_cons, List.sum_cons, List.length_cons]
+    have := h r List.mem_cons_self
+    have := ih (fun row hrow => h row (List.mem_cons_of_mem _ hrow))
+    rw [Nat.succ_mul]
+    omega
+
+/-- `processRowSpans` writes at most rows x width cells -/
+theorem processRowSpans_cells (rows : List (List Cell)) (h : ∀ row ∈ rows, ∀ c ∈ row, 1 ≤ c.colSpan) :
+    cellCount (processRowSpans rows) ≤ rows.length * colCount rows := by
+  unfold processRowSpans
+  have := cellCount_le (spanRows (colCount rows) rows (List.replicate (colCount rows) 0)) (colCount rows)
+    (spanRows_row_le _ rows _ h)
+  rw [spanRows_length] at this
+  exact this
 
 end Tabula.Odt
